@@ -62,7 +62,7 @@ type Case struct {
 
 var byteKinds = []string{"bitflip", "delete", "insert-00", "insert-ff", "insert-copy", "subst-00", "subst-ff", "subst-not"}
 var fieldKinds = []string{"rewrite", "remove", "add-unknown"}
-var sigKinds = []string{"issuer-signs-foreign-header", "issuer-signs-garbled-header", "issuer-signs-empty-header", "issuer-signs-extended-header", "resign-other-same-alg", "resign-other-alg", "resign-signer-header", "borrow-signature", "header-other-alg", "header-garbled", "header-empty", "sig-truncate", "sig-empty", "sig-extend", "sig-zero"}
+var sigKinds = []string{"issuer-signs-header-insert", "issuer-signs-header-insert", "issuer-signs-header-delete", "issuer-signs-header-subst", "issuer-signs-header-dup-segment", "issuer-signs-foreign-header", "issuer-signs-garbled-header", "issuer-signs-empty-header", "issuer-signs-extended-header", "resign-other-same-alg", "resign-other-alg", "resign-signer-header", "borrow-signature", "header-other-alg", "header-garbled", "header-empty", "sig-truncate", "sig-empty", "sig-extend", "sig-zero"}
 
 var dlgFields = []string{"iss", "aud", "sub", "cmd", "pol", "nonce", "meta", "nbf", "exp"}
 var invFields = []string{"iss", "aud", "sub", "cmd", "args", "prf", "nonce", "meta", "exp", "iat", "cause"}
@@ -219,7 +219,7 @@ func corrupt(cs Case, sealed []byte) (out []byte, oldSig bool, ok bool) {
 		k := otherKey(iss, c.Kind == "resign-other-same-alg", c.Alt).Key()
 		b, err := env.Seal(k.Priv, e.SigPayload) // header still announces the issuer's type
 		return b, false, err == nil
-	case "issuer-signs-foreign-header", "issuer-signs-garbled-header", "issuer-signs-empty-header", "issuer-signs-extended-header":
+	case "issuer-signs-foreign-header", "issuer-signs-garbled-header", "issuer-signs-empty-header", "issuer-signs-extended-header", "issuer-signs-header-insert", "issuer-signs-header-delete", "issuer-signs-header-subst", "issuer-signs-header-dup-segment":
 		// a VALID signature by the issuer's own key over a sigPayload whose header
 		// does not announce the issuer's signature scheme
 		var hdr []byte
@@ -237,6 +237,20 @@ func corrupt(cs Case, sealed []byte) (out []byte, oldSig bool, ok bool) {
 			hdr[c.Alt%len(hdr)] ^= 1 << (c.Alt % 7)
 		case "issuer-signs-extended-header":
 			hdr = append(append([]byte{}, e.Header...), byte(c.Alt))
+		case "issuer-signs-header-insert":
+			// one or two bytes (a small varint parameter, a multi-byte varint, a known multicodec) inserted at any position
+			ins := [][]byte{{0x13}, {0x12}, {0x00}, {0x71}, {0x80, 0x01}, {0xed, 0x01}, {0x12, 0x16}, {0xff, 0x7f}}[c.Alt%8]
+			pos := (c.Alt / 8) % (len(e.Header) + 1)
+			hdr = append(append(append([]byte{}, e.Header[:pos]...), ins...), e.Header[pos:]...)
+		case "issuer-signs-header-delete":
+			pos := c.Alt % len(e.Header)
+			hdr = append(append([]byte{}, e.Header[:pos]...), e.Header[pos+1:]...)
+		case "issuer-signs-header-subst":
+			hdr = append([]byte{}, e.Header...)
+			hdr[c.Alt%len(hdr)] = []byte{0x00, 0x12, 0x13, 0x34, 0x71, 0x55, 0x80, 0xed, 0xe7, 0xec, 0x85, 0x01}[(c.Alt/len(hdr))%12]
+		case "issuer-signs-header-dup-segment":
+			pos := c.Alt % len(e.Header)
+			hdr = append(append(append([]byte{}, e.Header[:pos+1]...), e.Header[pos]), e.Header[pos+1:]...)
 		default:
 			hdr = []byte{}
 		}
